@@ -138,6 +138,12 @@ def state_case(rep, spec, index):
         rep.require("helper has the same outcome as the standalone calculation", st == "slow", case, {"helper": "ideal curve", "error": repr(curve)})
     # the same state given as a mole fraction: the curve metrics must still be in one consistent basis
     xm = gen.to_molar_exact(x, fc.mix)
+    st, sfm = _guard(lambda: pv.calculate_separation_factor(T, xm, tp, pp, prec, model))
+    if st == "ok" and 0 < y_ref < 1 and math.isfinite(float(sfm)):
+        sf_ref = (y_ref / (1 - y_ref)) / (x.p / (1 - x.p))
+        cond_ = 1 + 1 / (1 - y_ref) + 1 / (1 - x.p) + 1 / y_ref + 1 / x.p + 1 / min(xm.p, 1 - xm.p)
+        rep.check("separation-factor helper with a mole-fraction feed: still (y1/y2)/(x1/x2) in ONE basis", abs(float(sfm) - sf_ref),
+                  (64 * EPS * cond_ + 8 * prec * (1 + 1 / min(y_ref, 1 - y_ref))) * abs(sf_ref), dict(case, feed="molar"), {"helper": float(sfm), "ref": sf_ref})
     st, curve2 = _guard(lambda: pv.ideal_diffusion_curve(T, [xm, x], tp, pp, prec, model))
     if st == "ok":
         curve_metrics(rep, dict(case, curve_basis="molar+weight"), curve2)
